@@ -649,6 +649,13 @@ inline void account(Entry const& e, Case const& c, bool random)
     }
     auto len = static_cast<int>(c.a.size());
     vf::label("nontrivial", nt);
+    {
+        bool dup = false;
+        for (std::size_t i = 0; i < c.a.size() && !dup; ++i) {
+            for (std::size_t j = i + 1; j < c.a.size(); ++j) { dup = dup || c.a[i] == c.a[j]; }
+        }
+        vf::label("first range has a duplicate key (equivalent but distinguishable elements)", dup);
+    }
     if ((e.dims & D_MID) != 0) { vf::label("split strictly inside", c.m > 0 && c.m < len); }
     if ((e.dims & D_N) != 0) { vf::label("n outside {0,len}", c.n != 0 && c.n != len); }
     if ((e.dims & (D_B | D_BSAME)) != 0) { vf::label("non-empty second range", !c.b.empty()); }
@@ -862,6 +869,16 @@ inline void random_cases(vf::Ctx& ctx, Entry const& e, int count, int maxlen)
             account(e, c, true);
         }
     }
+}
+
+// narrow known-finding classes inside a check: `if (known("C06.shift_right.n0")) return SKIP;`
+inline auto known(char const* tag) -> bool
+{
+    if (vf::ctx().excluded(tag)) {
+        vf::excluded_known(tag);
+        return true;
+    }
+    return false;
 }
 
 // known-finding exclusions understood by these harnesses: "C06.<algo>" or "C06.<algo>.<it>" removes a table entry
